@@ -858,6 +858,7 @@ func init() {
 		an, _ := in["a"].(map[string]any)
 		bn, _ := in["b"].(map[string]any)
 		a, b := BuildNode(an), BuildNode(bn) // two independent builds
+		shareBacking(a, b)
 		first := []string{eqVerdict(a, b), eqVerdict(b, a)}
 		// the verdict belongs to the two values, not to the history: asked again (both orders, twice) it is the same
 		for rep := 0; rep < 2; rep++ {
@@ -875,6 +876,31 @@ func init() {
 			g.mutate(b)
 		}
 		return Node{"t": "pair", "a": a, "b": b}, nil
+	}
+}
+
+// shareBacking: where the two trees hold, at the same top-level position, []int leaves of DIFFERENT length of which one is a
+// prefix of the other (the "one element more / fewer" mutation), the shorter one is replaced by a re-slice of the longer one's
+// backing array -- the way such a pair arises in practice (b := a[:n-1]).  Same start address, different values.
+func shareBacking(a, b any) {
+	sa, oka := stackage.ConvertStack(a)
+	sb, okb := stackage.ConvertStack(b)
+	if !oka || !okb {
+		return
+	}
+	for i := 0; i < sa.Len() && i < sb.Len(); i++ {
+		ea, _ := sa.Index(i)
+		eb, _ := sb.Index(i)
+		xa, ok1 := ea.([]int)
+		xb, ok2 := eb.([]int)
+		if !ok1 || !ok2 || len(xa) == len(xb) {
+			continue
+		}
+		if len(xa) > len(xb) && reflect.DeepEqual(xa[:len(xb)], xb) {
+			sb.Replace(xa[:len(xb)], i)
+		} else if len(xb) > len(xa) && reflect.DeepEqual(xb[:len(xa)], xa) && len(xa) > 0 {
+			sa.Replace(xb[:len(xa)], i)
+		}
 	}
 }
 
@@ -926,7 +952,7 @@ func (g *treeGen) eqLeaf() Node {
 		return Node{"t": "sl", "arr": false, "ety": "typed", "slack": 0, "e": []any{Node{"t": "sl", "arr": false, "ety": "typed", "slack": 0, "e": ints(2)},
 			Node{"t": "sl", "arr": false, "ety": "typed", "slack": []int{0, 5}[g.rng.Intn(2)], "e": ints(1 + g.rng.Intn(3))}}}
 	case 7:
-		return Node{"t": "mp", "ks": []any{[]any{"k"}, []any{"j"}}, "vs": []any{[]any{"1"}, []any{fmt.Sprint(2 + g.rng.Intn(7))}}}
+		return Node{"t": "mp", "vp": g.rng.Intn(2) == 0, "ks": []any{[]any{"k"}, []any{"j"}}, "vs": []any{[]any{"1"}, []any{fmt.Sprint(2 + g.rng.Intn(7))}}}
 	case 8:
 		if g.rng.Intn(2) == 0 {
 			vals := []any{Node{"t": "nil"}, Node{"t": "leaf", "ty": "str", "v": []any{"x"}}}
